@@ -23,6 +23,13 @@ def snapshot(w):
             {k: w.get_coeff(k).shape for k in sorted(w.sectors())})
 
 
+def safe_snapshot(w):
+    try:
+        return snapshot(w)
+    except Exception as exc:           # the object no longer holds together
+        return ("corrupt", type(exc).__name__)
+
+
 def run(ctx):
     fqe = ctx.fqe
     import props.C01 as C01
@@ -182,6 +189,42 @@ def run(ctx):
                 if snapshot(obj) != originals[k0]:
                     ctx.disagree("persist:loaded-objects-share-data", "scaling one loaded object changed another one", desc)
                     break
+        # ---- files that decode but are not a wavefunction archive, read into a live receiver: refused, receiver
+        #      untouched; and a proper archive read into a receiver that already holds other sectors: afterwards the
+        #      receiver *is* the saved wavefunction --------------------------------------------------------------------
+        import pickle as _pickle
+        dn = os.path.join(root, "foreign")
+        os.makedirs(dn)
+        src_w = C01.make_wfn(ctx, "multi", 3, rng)
+        src_w.save("good.bin", path=dn)
+        good = _pickle.load(open(os.path.join(dn, "good.bin"), "rb"))
+        foreign = {"list2": [1, 2], "int": 7, "dict": {"a": 1}, "none": None, "str": "wavefunction",
+                   "five-scalars": [1, 2, 3, 4, 5], "header-then-junk": list(good[:5]) + [[(2, 0), "not a sector"]],
+                   "header-then-number": list(good[:5]) + [3.5], "short-header": list(good[:3])}
+        for name, obj in foreign.items():
+            with open(os.path.join(dn, name + ".bin"), "wb") as fh:
+                _pickle.dump(obj, fh)
+            recv = C01.make_wfn(ctx, "single", 2, rng)
+            before = snapshot(recv)
+            try:
+                recv.read(name + ".bin", path=dn)
+                oc = "accepted"
+            except Exception as exc:
+                oc = type(exc).__name__
+            ctx.case(("foreign-archive", name))
+            ctx.count(f"foreign-archive:{'refused' if oc != 'accepted' else 'accepted'}")
+            if oc == "accepted" and name not in ("five-scalars",):
+                ctx.disagree("persist:foreign-file-accepted", f"read() accepted a pickled {name} as a wavefunction", {"file": name})
+            elif oc != "accepted" and safe_snapshot(recv) != before:
+                ctx.disagree("persist:foreign-file-partial-update", f"read() of a pickled {name} raised {oc} after the receiver "
+                             "had been modified", {"file": name})
+        recv = C01.make_wfn(ctx, "multi", 3, rng)
+        recv.read("good.bin", path=dn)
+        ctx.case(("read-into-used-receiver",))
+        ctx.count("read-into-used-receiver")
+        if snapshot(recv) != snapshot(src_w):
+            ctx.disagree("persist:used-receiver", f"after reading into a receiver that held sectors {sorted(recv.sectors())} the object "
+                         f"differs from the saved wavefunction (sectors {sorted(src_w.sectors())})", {})
     finally:
         os.chdir(home)
         shutil.rmtree(root, ignore_errors=True)
